@@ -88,16 +88,11 @@ Definition curve_shapeb (c : jcurve T) : bool :=
   strictly_incr (nodes_keys (cv_nodes c)) && nodes_wfb (cv_nodes c) && caltype_shapeb (cv_cal c) &&
   Nat.ltb (cv_rule c) 6 && Nat.ltb (cv_conv c) 11 && Nat.ltb (cv_mod c) 5.
 
-Fixpoint nondecr (t : list T) : bool :=
-  match t with
-  | a :: (b :: _) as r => nleb a b && nondecr r
-  | _ => true
-  end.
+(* what PPSpline::new establishes (it does not look at the coefficients' count) *)
 Definition spline_shapeb {X} (wfx : X -> bool) (s : jspline T X) : bool :=
   let lt := Z.of_nat (length (sp_t s)) in
-  (sp_k s <=? lt)%Z && (sp_n s =? lt - sp_k s)%Z && nondecr (sp_t s) &&
-  match sp_c s with None => true
-  | Some c => (Z.of_nat (length c) =? sp_n s)%Z && forallb wfx c end.
+  (1 <? lt)%Z && (sp_k s <=? lt)%Z && (sp_n s =? lt - sp_k s)%Z && nondecr (sp_t s) &&
+  match sp_c s with None => true | Some c => forallb wfx c end.
 
 (* an FX market is the output of the constructor on its own quotes and first currency *)
 Definition arr_kind (a : numarr T) : Z := match a with AF _ => 0 | AD _ => 1 | AD2 _ => 2 end%Z.
@@ -128,27 +123,10 @@ Definition shapeb (o : obj T) : bool :=
   | OSpD2 s => spline_shapeb wf_jdual2b s
   end.
 
-(* the relations a derived Deserialize does NOT check (DESIGN §6 F5); everything else in `shapeb`
-   holds for every loaded value *)
 Definition dual_lenb (d : dual T) : bool := Nat.eqb (length (du d)) (length (vs d)).
 Definition jdual2_lenb (d : jdual2 T) : bool :=
   let n := Z.of_nat (length (j2_vars d)) in
   Nat.eqb (length (j2_du d)) (length (j2_vars d)) && Z.eqb (a_rows (j2_dd d)) n && Z.eqb (a_cols (j2_dd d)) n.
-Definition spline_lenb {X} (lenx : X -> bool) (s : jspline T X) : bool :=
-  let lt := Z.of_nat (length (sp_t s)) in
-  (sp_k s <=? lt)%Z && (sp_n s =? lt - sp_k s)%Z && nondecr (sp_t s) &&
-  match sp_c s with None => true
-  | Some c => (Z.of_nat (length c) =? sp_n s)%Z && forallb lenx c end.
-Definition unvalidated_ok (o : obj T) : bool :=
-  match o with
-  | ODual d => dual_lenb d
-  | ODual2 d => jdual2_lenb d
-  | OCurve c => strictly_incr (nodes_keys (cv_nodes c)) && nodes_wfb (cv_nodes c)
-  | OSpF s => spline_lenb (fun _ => true) s
-  | OSpD s => spline_lenb dual_lenb s
-  | OSpD2 s => spline_lenb jdual2_lenb s
-  | _ => true
-  end.
 
 (* the integers harness/src/json.rs prints for a loaded object (Tagged::shape) *)
 Definition zlen {A} (l : list A) : Z := Z.of_nat (length l).
